@@ -32,8 +32,9 @@ BUILD = (ops.CREATE * 2 + ops.SETTERS + ops.LINKS + ["write", "append", "append"
 ISOLATED = sorted(set(BUILD) - {"flush", "overwrite", "relink", "multi_append"})
 
 
-def child_run(path, side, prog, upto, do_flush, final):
-    """runs in the forked child; never returns"""
+def child_run(path, side, prog, upto, do_flush, final, record=True, kill=True):
+    """runs in the forked child; never returns.  record=False: the writer does NOT read its file back before the
+    flush (a read may itself push buffered data out); kill=False: the reference writer, which closes normally"""
     try:
         # the writer runs under a harness-owned clock that advances with every op, so that timestamps written
         # by later ops differ from the ones of creation (a timestamp that misses the flush is a lost write too)
@@ -46,11 +47,14 @@ def child_run(path, side, prog, upto, do_flush, final):
                 it.f.flush()
             else:
                 it.step(op)
-        W = walk.walk(it.f)
+        W = walk.walk(it.f) if record else {"not-recorded": True}
         with open(side, "w") as fh:
             json.dump(W, fh)
             fh.flush()
             os.fsync(fh.fileno())
+        if not kill:
+            it.f.close()
+            os._exit(0)
         if do_flush:
             if final["kind"] == "close":
                 it.f.close()
@@ -66,15 +70,21 @@ def child_run(path, side, prog, upto, do_flush, final):
     os._exit(4)
 
 
-def crash_once(ctx, path, prog, upto, do_flush, final):
+def crash_once(ctx, path, prog, upto, do_flush, final, record=True, kill=True):
     side = path + ".walk.json"
     for p in (path, side, side + ".err"):
         if os.path.exists(p):
             os.remove(p)
     pid = os.fork()
     if pid == 0:
-        child_run(path, side, prog, upto, do_flush, final)
+        child_run(path, side, prog, upto, do_flush, final, record, kill)
     _, status = os.waitpid(pid, 0)
+    if not kill:
+        if not (os.WIFEXITED(status) and os.WEXITSTATUS(status) == 0):
+            msg = open(side + ".err").read() if os.path.exists(side + ".err") else "status=%r" % status
+            raise RuntimeError("reference writer failed: " + msg)
+        with open(side) as fh:
+            return json.load(fh)
     if not (os.WIFSIGNALED(status) and os.WTERMSIG(status) == signal.SIGKILL):
         msg = open(side + ".err").read() if os.path.exists(side + ".err") else "status=%r" % status
         raise RuntimeError("writer child did not die by SIGKILL: " + msg)
@@ -111,14 +121,32 @@ def run_case(case, ctx):
     upto = case["upto"]
     final = case["final"]
     path = os.path.join(ctx.workdir, "c17.nix")
-    recorded = crash_once(ctx, path, prog, upto, True, final)
+    blind = case.get("observe") == "reference"
+    if blind:
+        # the killed writer never reads its file back; what it should hold is taken from a second writer that
+        # runs the same history (same clock) and closes normally - equal up to the (random) ids
+        recorded = crash_once(ctx, os.path.join(ctx.workdir, "c17-ref.nix"), prog, upto, True, final, True, False)
+        crash_once(ctx, path, prog, upto, True, final, False, True)
+        try:
+            os.remove(os.path.join(ctx.workdir, "c17-ref.nix"))
+        except OSError:
+            pass
+    else:
+        recorded = crash_once(ctx, path, prog, upto, True, final)
     got = reopen_walks(path)
-    kind = final["kind"]
+    kind = final["kind"] + ("(writer-did-not-read-back)" if blind else "")
     for label, W in got.items():
         if "open-failed" in W or "walk-failed" in W:
             ctx.violation("C17/%s/%s/cannot-open" % (kind, label), case, W)
             continue
-        d = walk.diff(recorded, W)
+        if blind:
+            from props.c20 import compare_modulo_ids
+            idmap = {}
+            d = compare_modulo_ids(recorded, W, idmap)
+            if not d and any(len(v) > 1 for v in idmap.values()):
+                d = ("/ids", "one entity of the reference run", "several ids after the kill")
+        else:
+            d = walk.diff(recorded, W)
         if d:
             import re
             ctx.violation("C17/%s/%s/state-differs%s" % (kind, label, re.sub(r"\[\d+\]", "", d[0])), case,
@@ -144,7 +172,8 @@ def run_case(case, ctx):
         if o["op"] not in ("tick",):
             since += 1
     nt = (creations >= 3 or appends >= 1) and since >= 1
-    classes = ["point:" + kind, "compress" if final.get("compress") else "plain",
+    classes = ["point:" + final["kind"], "expected-from:" + ("reference-run" if blind else "walk-before-flush"),
+               "compress" if final.get("compress") else "plain",
                "appends:%d" % min(appends, 3), "since-last-flush:%d" % min(since, 5)]
     between = []
     for o in reversed(done):
@@ -158,7 +187,7 @@ def run_case(case, ctx):
             os.remove(p)
         except OSError:
             pass
-    ctx.case({"prog": prog, "upto": upto, "final": final}, nt, classes,
+    ctx.case({"prog": prog, "upto": upto, "final": final, "observe": case.get("observe", "walk")}, nt, classes,
              sample={"upto": upto, "final": final, "prog": prog[:8], "len": len(prog)})
 
 
@@ -196,13 +225,13 @@ def run_program(pc, ctx, control_every):
     for i in pts:
         n += 1
         run_case({"prog": prog, "upto": i, "final": {"kind": "flush", "compress": pc["compress"]},
-                  "control": (n % control_every == 0)}, ctx)
+                  "control": (n % control_every == 0), "observe": "reference" if (n + len(prog)) % 3 == 0 else "walk"}, ctx)
     run_case({"prog": prog, "upto": len(prog), "final": {"kind": "close", "compress": pc["compress"]},
-              "control": False}, ctx)
+              "control": False, "observe": "reference" if len(prog) % 2 else "walk"}, ctx)
 
 
 def shards(tier, seed):
-    n, per, mx = (16, 10, 24) if tier == "quick" else (64, 60, 40)
+    n, per, mx = (16, 8, 24) if tier == "quick" else (64, 60, 40)
     return [{"n": per, "max_ops": mx, "seed": seed * 1000 + i} for i in range(n)]
 
 
